@@ -1,8 +1,8 @@
 (* ValidUTF8 (a loop over utf8.DecodeRune) characterised on all byte strings:
      valid_utf8_impl s = Ok (well-formed UTF-8 per Unicode table 3-7, no U+0000,
-                             no control characters U+0001..1F / U+007F..9F, no U+FFFD)
+                             no control characters U+0001..1F / U+007F..9F)
    i.e. the specification's "must accept" set, minus the control characters a receiver may
-   refuse, minus U+FFFD (the deviation). *)
+   refuse. *)
 From Coq Require Import List NArith ZArith Bool Lia ZifyN ZifyNat ZifyBool.
 Import ListNotations.
 From GM Require Import Base.Topic Base.Msg Model.CodecBase Model.CodecSpec Proofs.CodecBaseP Proofs.CodecStrP.
@@ -10,7 +10,7 @@ Open Scope N_scope.
 Ltac Zify.zify_post_hook ::= Z.div_mod_to_equations.
 
 Definition no0 (s : str) : bool := negb (existsb (N.eqb 0) s).
-Definition G (s : str) : bool := utf8_wf s && no0 s && negb (has_ctl s) && negb (has_fffd s).
+Definition G (s : str) : bool := utf8_wf s && no0 s && negb (has_ctl s).
 
 Lemma land31 x : N.land x 31 = x mod 32. Proof. change 31 with (N.ones 5). now rewrite N.land_ones. Qed.
 Lemma land63 x : N.land x 63 = x mod 64. Proof. change 63 with (N.ones 6). now rewrite N.land_ones. Qed.
@@ -42,7 +42,7 @@ Lemma G_nil : G [] = true. Proof. reflexivity. Qed.
 
 Lemma G_1 : forall a t, a < 128 -> G (a :: t) = negb (a <=? 31) && negb (a =? 127) && G t.
 Proof.
-  intros a t Ha. unfold G. rewrite has_fffd_cons, has_ctl_cons, no0_cons. cbn [utf8_wf].
+  intros a t Ha. unfold G. rewrite has_ctl_cons, no0_cons. cbn [utf8_wf].
   replace (a <=? 127) with true by lia.
   destruct t as [|b [|c t']]; bdec.
 Qed.
@@ -71,7 +71,7 @@ Lemma G_2 : forall a t, 194 <= a <= 223 ->
 Proof.
   intros a t Ha. destruct t as [|b t1].
   - unfold G. cbn [utf8_wf]. replace (a <=? 127) with false by lia. reflexivity.
-  - unfold G. rewrite !has_fffd_cons, !has_ctl_cons, !no0_cons. cbn [utf8_wf]. unfold cont.
+  - unfold G. rewrite !has_ctl_cons, !no0_cons. cbn [utf8_wf]. unfold cont.
     replace (a <=? 127) with false by lia. replace ((194 <=? a) && (a <=? 223)) with true by lia.
     destruct t1 as [|c [|d t2]]; bdec.
 Qed.
@@ -81,7 +81,7 @@ Definition r3 (a b : N) : bool :=
 
 Lemma G_3 : forall a t, 224 <= a <= 239 ->
   G (a :: t) = match t with
-               | b :: c :: t2 => r3 a b && cont c && negb ((a =? 239) && (b =? 191) && (c =? 189)) && G t2
+               | b :: c :: t2 => r3 a b && cont c && G t2
                | _ => false
                end.
 Proof.
@@ -89,7 +89,7 @@ Proof.
   - unfold G. cbn [utf8_wf]. replace (a <=? 127) with false by lia. reflexivity.
   - unfold G. cbn [utf8_wf]. replace (a <=? 127) with false by lia.
     replace ((194 <=? a) && (a <=? 223)) with false by lia. reflexivity.
-  - unfold G. rewrite !has_fffd_cons, !has_ctl_cons, !no0_cons. cbn [utf8_wf]. unfold r3, cont.
+  - unfold G. rewrite !has_ctl_cons, !no0_cons. cbn [utf8_wf]. unfold r3, cont.
     replace (a <=? 127) with false by lia. replace ((194 <=? a) && (a <=? 223)) with false by lia.
     destruct (N.eqb_spec a 224); [|destruct (N.eqb_spec a 237)].
     + subst a. cbn [N.eqb Pos.eqb orb andb]. destruct t2 as [|d [|e t3]]; bdec.
@@ -115,31 +115,27 @@ Proof.
     replace ((194 <=? a) && (a <=? 223)) with false by lia. replace (a =? 224) with false by lia.
     replace (((225 <=? a) && (a <=? 236)) || (a =? 238) || (a =? 239)) with false by lia.
     replace (a =? 237) with false by lia. reflexivity.
-  - unfold G. rewrite !has_fffd_cons, !has_ctl_cons, !no0_cons. cbn [utf8_wf]. unfold r4, cont.
-    replace (a <=? 127) with false by lia. replace ((194 <=? a) && (a <=? 223)) with false by lia.
-    replace (a =? 224) with false by lia.
-    replace (((225 <=? a) && (a <=? 236)) || (a =? 238) || (a =? 239)) with false by lia.
-    replace (a =? 237) with false by lia.
-    destruct (N.eqb_spec a 240); [|destruct (N.eqb_spec a 244)].
-    + subst a. cbn [N.eqb Pos.eqb orb andb]. destruct t3 as [|e [|g t4]]; bdec.
-    + subst a. cbn [N.eqb Pos.eqb orb andb N.leb N.compare Pos.compare Pos.compare_cont]. destruct t3 as [|e [|g t4]]; bdec.
-    + replace ((241 <=? a) && (a <=? 243)) with true by lia. destruct t3 as [|e [|g t4]]; bdec.
+  - assert (Hc : a = 240 \/ a = 241 \/ a = 242 \/ a = 243 \/ a = 244) by lia.
+    unfold G. rewrite !has_ctl_cons, !no0_cons. cbn [utf8_wf]. unfold r4, cont.
+    destruct Hc as [ -> | [ -> | [ -> | [ -> | -> ] ] ] ];
+      cbn [N.eqb Pos.eqb orb andb N.leb N.compare Pos.compare Pos.compare_cont negb];
+      destruct t3 as [|e [|g t4]]; bdec.
 Qed.
 
 (* ---------------------------------------------------------------- the loop *)
 (* the tests ValidUTF8 applies to a decoded rune *)
-Definition good (ru : N) : bool :=
-  negb (ru <=? 31) && negb ((127 <=? ru) && (ru <=? 159)) && negb (ru =? RUNE_ERROR) && valid_rune ru.
+Definition good (ru size : N) : bool :=
+  negb (ru <=? 31) && negb ((127 <=? ru) && (ru <=? 159)) && negb ((ru =? RUNE_ERROR) && (size <=? 1)) && valid_rune ru.
 
 Lemma loop_step : forall k p, p <> [] ->
   valid_utf8_loop (S k) p =
-  if good (fst (decode_rune p)) then valid_utf8_loop k (dropN (snd (decode_rune p)) p) else Ok false.
+  if good (fst (decode_rune p)) (snd (decode_rune p)) then valid_utf8_loop k (dropN (snd (decode_rune p)) p) else Ok false.
 Proof.
   intros k p Hp. cbn [valid_utf8_loop]. destruct p as [|p0 t] eqn:Ep; [congruence|]. rewrite <- Ep in *.
   destruct (rune_step p Hp) as [Hs _]. destruct (decode_rune_size p Hp) as [H1 _].
   destruct (decode_rune p) as [ru size]. cbn [fst snd] in *. unfold good.
   destruct (ru <=? 31); [reflexivity|]. destruct ((127 <=? ru) && (ru <=? 159)); [reflexivity|].
-  destruct (ru =? RUNE_ERROR); [reflexivity|]. destruct (valid_rune ru); cbn [negb andb]; [|reflexivity].
+  destruct ((ru =? RUNE_ERROR) && (size <=? 1)); [reflexivity|]. destruct (valid_rune ru); cbn [negb andb]; [|reflexivity].
   replace (size =? 0) with false by lia. rewrite Hs. reflexivity.
 Qed.
 
@@ -154,12 +150,9 @@ Proof.
   { (* one byte *)
     assert (Hd : decode_rune (p0 :: t) = (p0, 1)) by (unfold decode_rune; replace (p0 <? 128) with true by lia; reflexivity).
     rewrite Hd. cbn [fst snd]. rewrite IH by lia. cbn [dropN N.eqb N.pred]. rewrite dropN_0.
-    rewrite G_1 by assumption. unfold good, RUNE_ERROR, valid_rune.
-    destruct (G t); [|rewrite andb_false_r; destruct (_ && _); reflexivity].
-    rewrite andb_true_r.
-    replace (negb (p0 <=? 31) && negb ((127 <=? p0) && (p0 <=? 159)) && negb (p0 =? 65533) &&
-             ((p0 <? 55296) || (57343 <? p0) && (p0 <=? 1114111))) with (negb (p0 <=? 31) && negb (p0 =? 127)) by lia.
-    destruct (negb (p0 <=? 31) && negb (p0 =? 127)); reflexivity. }
+    rewrite G_1 by assumption.
+    assert (Hg : good p0 1 = negb (p0 <=? 31) && negb (p0 =? 127)) by (unfold good, RUNE_ERROR, valid_rune; lia).
+    rewrite Hg. destruct (negb (p0 <=? 31) && negb (p0 =? 127)); cbn [andb]; reflexivity. }
   destruct (N.ltb_spec p0 194) as [H2|H2].
   { rewrite G_bad_lead by lia. unfold decode_rune. replace (p0 <? 128) with false by lia.
     replace ((p0 <? 194) || (244 <? p0)) with true by lia. reflexivity. }
@@ -183,16 +176,13 @@ Proof.
       replace ((128 <=? b1) && (b1 <=? 191)) with true by lia. reflexivity. }
     rewrite Hd. unfold cont in *. destruct ((128 <=? b1) && (b1 <=? 191)) eqn:Ec; cbn [fst snd andb]; [|reflexivity].
     rewrite IH by lia. cbn [dropN N.eqb N.pred Pos.pred_N]. rewrite dropN_0.
-    unfold good, RUNE_ERROR, valid_rune.
-    replace (negb (p0 mod 32 * 64 + b1 mod 64 <=? 31) && negb ((127 <=? p0 mod 32 * 64 + b1 mod 64) && (p0 mod 32 * 64 + b1 mod 64 <=? 159))
-             && negb (p0 mod 32 * 64 + b1 mod 64 =? 65533)
-             && ((p0 mod 32 * 64 + b1 mod 64 <? 55296) || (57343 <? p0 mod 32 * 64 + b1 mod 64) && (p0 mod 32 * 64 + b1 mod 64 <=? 1114111)))
-      with (negb ((p0 =? 194) && (b1 <=? 159))) by lia.
-    destruct (negb ((p0 =? 194) && (b1 <=? 159))); reflexivity. }
+    assert (Hg : good (p0 mod 32 * 64 + b1 mod 64) 2 = negb ((p0 =? 194) && (b1 <=? 159)))
+      by (unfold good, RUNE_ERROR, valid_rune; lia).
+    rewrite Hg. destruct (negb ((p0 =? 194) && (b1 <=? 159))); reflexivity. }
   destruct (N.ltb_spec p0 240) as [H5|H5].
   { (* three bytes *)
     rewrite G_3 by lia.
-    assert (Hshort : forall t', (t' = [] \/ exists b, t' = [b]) -> fst (decode_rune (p0 :: t')) = RUNE_ERROR).
+    assert (Hshort : forall t', (t' = [] \/ exists b, t' = [b]) -> decode_rune (p0 :: t') = (RUNE_ERROR, 1)).
     { intros t' [->|[b ->]]; unfold decode_rune; replace (p0 <? 128) with false by lia;
         replace ((p0 <? 194) || (244 <? p0)) with false by lia; cbv zeta; [reflexivity|].
       destruct (_ || _); [reflexivity|]. replace (p0 <? 224) with false by lia. reflexivity. }
@@ -213,20 +203,17 @@ Proof.
          destruct ((b2 <? 128) || (191 <? b2)) eqn:E2;
          [replace ((128 <=? b2) && (b2 <=? 191)) with false by lia; reflexivity|];
          replace ((128 <=? b2) && (b2 <=? 191)) with true by lia; reflexivity). }
-    rewrite Hd. destruct (r3 p0 b1 && cont b2) eqn:Ec; cbn [fst snd]; [|rewrite andb_false_l; reflexivity].
+    rewrite Hd. destruct (r3 p0 b1 && cont b2) eqn:Ec; cbn [fst snd]; [|reflexivity].
     rewrite IH by lia. cbn [dropN N.eqb N.pred Pos.pred_N Pos.pred_double]. rewrite dropN_0.
     assert (Hrange : 128 <= b1 <= 191 /\ 128 <= b2 <= 191 /\ (p0 = 224 -> 160 <= b1) /\ (p0 = 237 -> b1 <= 159)).
     { unfold r3, cont in Ec. destruct (N.eqb_spec p0 224); [|destruct (N.eqb_spec p0 237)]; lia. }
-    unfold good, RUNE_ERROR, valid_rune. cbn [andb].
-    set (ru := (p0 mod 16 * 64 + b1 mod 64) * 64 + b2 mod 64).
-    assert (Hru : negb (ru <=? 31) && negb ((127 <=? ru) && (ru <=? 159)) && negb (ru =? 65533)
-                  && ((ru <? 55296) || (57343 <? ru) && (ru <=? 1114111))
-                  = negb ((p0 =? 239) && (b1 =? 191) && (b2 =? 189))) by (subst ru; lia).
-    rewrite Hru. destruct (negb _); reflexivity. }
+    assert (Hg : good ((p0 mod 16 * 64 + b1 mod 64) * 64 + b2 mod 64) 3 = true)
+      by (unfold good, RUNE_ERROR, valid_rune; lia).
+    rewrite Hg. reflexivity. }
   { (* four bytes *)
     rewrite G_4 by lia.
     assert (Hshort : forall t', (t' = [] \/ (exists b, t' = [b]) \/ (exists b c, t' = [b; c])) ->
-                                fst (decode_rune (p0 :: t')) = RUNE_ERROR).
+                                decode_rune (p0 :: t') = (RUNE_ERROR, 1)).
     { intros t' [->|[[b ->]|[b [c ->]]]]; unfold decode_rune; replace (p0 <? 128) with false by lia;
         replace ((p0 <? 194) || (244 <? p0)) with false by lia; cbv zeta; [reflexivity| |].
       - destruct (_ || _); [reflexivity|]. replace (p0 <? 224) with false by lia. reflexivity.
@@ -258,14 +245,52 @@ Proof.
     rewrite IH by lia. cbn [dropN N.eqb N.pred Pos.pred_N Pos.pred_double]. rewrite dropN_0.
     assert (Hrange : 128 <= b1 <= 191 /\ 128 <= b2 <= 191 /\ 128 <= b3 <= 191 /\ (p0 = 240 -> 144 <= b1) /\ (p0 = 244 -> b1 <= 143)).
     { unfold r4, cont in Ec. destruct (N.eqb_spec p0 240); [|destruct (N.eqb_spec p0 244)]; lia. }
-    unfold good, RUNE_ERROR, valid_rune.
-    set (ru := ((p0 mod 8 * 64 + b1 mod 64) * 64 + b2 mod 64) * 64 + b3 mod 64).
-    assert (Hru : negb (ru <=? 31) && negb ((127 <=? ru) && (ru <=? 159)) && negb (ru =? 65533)
-                  && ((ru <? 55296) || (57343 <? ru) && (ru <=? 1114111)) = true) by (subst ru; lia).
-    rewrite Hru. reflexivity. }
+    assert (Hg : good (((p0 mod 8 * 64 + b1 mod 64) * 64 + b2 mod 64) * 64 + b3 mod 64) 4 = true)
+      by (unfold good, RUNE_ERROR, valid_rune; lia).
+    rewrite Hg. reflexivity. }
 Qed.
 
 (* ValidUTF8, on every byte string *)
 Theorem valid_utf8_impl_spec : forall s,
-  valid_utf8_impl s = Ok (spec_utf8 s && negb (has_ctl s) && negb (has_fffd s)).
+  valid_utf8_impl s = Ok (spec_utf8 s && negb (has_ctl s)).
 Proof. intros. unfold valid_utf8_impl. rewrite valid_utf8_loop_G by lia. reflexivity. Qed.
+
+(* utf8.RuneError with a size above 1 is the genuine character U+FFFD (EF BF BD) *)
+Lemma decode_rune_error3 : forall p, fst (decode_rune p) = RUNE_ERROR -> 1 < snd (decode_rune p) ->
+  exists t, p = 239 :: 191 :: 189 :: t.
+Proof.
+  intros p Hr Hs. destruct p as [|p0 t]; [cbn in Hs; lia|]. unfold decode_rune, RUNE_ERROR in *.
+  destruct (N.ltb_spec p0 128); [cbn in Hs; lia|].
+  destruct ((p0 <? 194) || (244 <? p0)) eqn:E0; [cbn in Hs; lia|]. cbv zeta in *.
+  destruct t as [|b1 t1]; [cbn in Hs; lia|].
+  destruct ((b1 <? _) || (_ <? b1)) eqn:E1; [cbn in Hs; lia|].
+  destruct (N.ltb_spec p0 224).
+  { exfalso. cbn [fst] in Hr. rewrite land31, land63 in Hr. lia. }
+  destruct t1 as [|b2 t2]; [cbn in Hs; lia|].
+  destruct ((b2 <? 128) || (191 <? b2)) eqn:E2; [cbn in Hs; lia|].
+  destruct (N.ltb_spec p0 240).
+  { cbn [fst] in Hr. rewrite land15, !land63 in Hr.
+    assert (p0 = 239 /\ b1 = 191 /\ b2 = 189).
+    { clear Hs. revert E1. destruct (N.eqb_spec p0 224), (N.eqb_spec p0 237), (N.eqb_spec p0 240), (N.eqb_spec p0 244); intros E1; lia. }
+    destruct H2 as (-> & -> & ->). eauto. }
+  destruct t2 as [|b3 t3]; [cbn in Hs; lia|].
+  destruct ((b3 <? 128) || (191 <? b3)) eqn:E3; [cbn in Hs; lia|].
+  exfalso. cbn [fst] in Hr. rewrite land7, !land63 in Hr.
+  clear Hs. revert E1. destruct (N.eqb_spec p0 224), (N.eqb_spec p0 237), (N.eqb_spec p0 240), (N.eqb_spec p0 244); intros E1; lia.
+Qed.
+
+Lemma has_fffd_dropN : forall n p, has_fffd p = false -> has_fffd (dropN n p) = false.
+Proof.
+  intros n p. revert n. induction p as [|a t IH]; intros n H; [reflexivity|].
+  cbn [dropN]. destruct (n =? 0); [assumption|].
+  apply IH. rewrite has_fffd_cons in H. apply orb_false_elim in H. tauto.
+Qed.
+
+(* on a string without U+FFFD, a rune that decodes as RuneError is an encoding error (size 1) *)
+Lemma rune_error_size1 : forall p, has_fffd p = false -> fst (decode_rune p) = RUNE_ERROR ->
+  p <> [] -> snd (decode_rune p) = 1.
+Proof.
+  intros p Hf Hr Hp. destruct (decode_rune_size p Hp) as [H1 _].
+  destruct (N.eq_dec (snd (decode_rune p)) 1) as [E|E]; [assumption|]. exfalso.
+  destruct (decode_rune_error3 p Hr ltac:(lia)) as [t ->]. cbn in Hf. discriminate.
+Qed.
